@@ -42,3 +42,35 @@ func nonNil(v []Violation) []Violation {
 	}
 	return v
 }
+
+// ownExts gives a case its own copy of an extension list (with spare capacity): the lists of the suites are shared
+// by many cases, and a library call that changes the slice it was given must not go unnoticed or leak into other
+// cases.
+func ownExts(exts []string) []string {
+	if exts == nil {
+		return nil
+	}
+	return append(make([]string, 0, len(exts)+2), exts...)
+}
+
+// extsDiff reports a change the library made to the extension slice it was given (also beyond its length).
+func extsDiff(orig, mine []string) []Diff {
+	if orig == nil {
+		return nil
+	}
+	full := mine[:cap(mine)]
+	same := len(mine) == len(orig)
+	for i := range full {
+		want := ""
+		if i < len(orig) {
+			want = orig[i]
+		}
+		if full[i] != want {
+			same = false
+		}
+	}
+	if same {
+		return nil
+	}
+	return []Diff{{What: "the library changed the extension slice the caller passed to WithFileExtensions", Real: fmt.Sprintf("%q", full), Model: fmt.Sprintf("%q", orig)}}
+}
